@@ -1,5 +1,6 @@
 import Proofs.FormatStageRangeText
 import Proofs.FormatStageRangeGB32
+import Proofs.FormatResRoundTrips
 
 /-!
 C09, accepted stage declarations as the REAL parser reads them (`parseStage32`: `mem_gb` /
@@ -442,12 +443,12 @@ theorem readsBack32 (s : Stage) (hm : stageMB32Valid s = true) :
   constructor
   · intro mb h
     have := hm.1
-    simp only [h, Martian.FormatRes.wfMB, decide_eq_true_eq] at this
-    exact Martian.FormatRes.readGB32Tok_fmtGB mb this
+    simp only [h, Martian.FormatRes.wfMB] at this
+    exact Martian.FormatRes.gbRoundTrips_tok this
   · intro mb h
     have := hm.2
-    simp only [h, Martian.FormatRes.wfMB, decide_eq_true_eq] at this
-    exact Martian.FormatRes.readGB32Tok_fmtGB mb this
+    simp only [h, Martian.FormatRes.wfMB] at this
+    exact Martian.FormatRes.gbRoundTrips_tok this
 
 /-- the resource conjunct of `wfStage` IS `stageMB32Valid` (`wfMB` is the 256 GB bound) -/
 theorem stageMB32Valid_of_wf (s : Stage) (hw : wfStage s = true) : stageMB32Valid s = true := by
@@ -485,20 +486,19 @@ theorem stageMBValid_of_32 (s : Stage) (hm : stageMB32Valid s = true) : stageMBV
   | none => rfl
   | some r =>
     simp only [hr, Bool.and_eq_true] at hm ⊢
-    have h63 : (262144 : Nat) ≤ 2 ^ 63 := by decide
     constructor
     · cases hmem : r.mem with
       | none => rfl
       | some mb =>
         have := hm.1
-        simp only [hmem, Martian.FormatRes.wfMB, decide_eq_true_eq] at this
-        simp only [mbInt64, decide_eq_true_eq]; omega
+        simp only [hmem, Martian.FormatRes.wfMB] at this
+        simp only [mbInt64, decide_eq_true_eq]; exact Martian.FormatRes.gbRoundTrips_lt63 this
     · cases hv : r.vmem with
       | none => rfl
       | some mb =>
         have := hm.2
-        simp only [hv, Martian.FormatRes.wfMB, decide_eq_true_eq] at this
-        simp only [mbInt64, decide_eq_true_eq]; omega
+        simp only [hv, Martian.FormatRes.wfMB] at this
+        simp only [mbInt64, decide_eq_true_eq]; exact Martian.FormatRes.gbRoundTrips_lt63 this
 
 theorem stageMB32Valid_canon (h : Bytes → Bytes) (s : Stage) :
     stageMB32Valid (canonStage h s) = stageMB32Valid s := by
